@@ -67,6 +67,7 @@ func main() {
 	sweep := flag.String("sweep", "", "safety sweep: select every function (with or without contract) whose short key contains this substring ('.' = all)")
 	localsIn := flag.String("locals-in", "", "recorded variable names per function (rename tolerance, see locals.go)")
 	localsOut := flag.String("locals-out", "", "write the variable names of the selected functions to this file")
+	knownFile := flag.String("known", "", "file with every obligation name that existed when the claimed set was recorded: with -only, obligations NOT in this file (new code: new panic sites, new heap writes, new call sites) are solved too")
 	onlyFile := flag.String("only", "", "file with obligation names: solve only these (others are generated and listed as skipped)")
 	flag.Parse()
 	t0 := time.Now()
@@ -127,6 +128,17 @@ func main() {
 				l = strings.TrimSpace(l)
 				if l != "" && !strings.HasPrefix(l, "#") {
 					only[l] = true
+				}
+			}
+		}
+	}
+	known := map[string]bool{}
+	if *knownFile != "" {
+		if data, err := os.ReadFile(*knownFile); err == nil {
+			for _, l := range strings.Split(string(data), "\n") {
+				l = strings.TrimSpace(l)
+				if l != "" && !strings.HasPrefix(l, "#") {
+					known[l] = true
 				}
 			}
 		}
@@ -192,7 +204,7 @@ func main() {
 		sort.Strings(fr.Trusted)
 		fr.NObl = len(vc.obls)
 		for i, o := range vc.obls {
-			if len(only) > 0 && !only[shortKey(k)+"/"+o.Name] {
+			if len(only) > 0 && !only[shortKey(k)+"/"+o.Name] && (len(known) == 0 || known[shortKey(k)+"/"+o.Name]) {
 				out.Skipped = append(out.Skipped, shortKey(k)+"/"+o.Name)
 				continue
 			}
